@@ -39,9 +39,13 @@ ASSUMPTIONS = ['for invalid-expression faults the offending substring is the exp
 
 BADS = ['bad7 +', '1 +', '(a', 'a b', 'x[', 'é +', 'lambda', 'a ++ ', "d['k'", 'not',
         # invalid expressions spanning lines: the token must still be the source substring
-        '(a\n   b', '1 +\n  2 +', 'a\n b']
+        '(a\n   b', '1 +\n  2 +', 'a\n b',
+        # ... whose brackets an added outer pair would balance, or that only parse inside brackets
+        'a) * (b +\n c', '1), (2,\n 3', 'n * n\n for n in (1, 2)', ']\n+ [']
 GOODS = ['1', "'s'", 'a', "';;'", "'&amp;'", "'&lt;b&gt;'", 'x or 1', "d['k']", "'é'", "a ;; b" if False else "'x;;y'", '(1, 2)',
-         "len('ab')"]
+         "len('ab')",
+         # valid expressions written over several lines (a line break inside a literal is a blank)
+         "'one\ntwo'", '(1,\n 2)', 'x or\n 1', "len('a\n\nb')"]
 
 
 class Case:
@@ -114,6 +118,8 @@ def expr_sites(rng, E):
         ('comment-interp', '<!-- c ${%s} d -->' % E),
         ('cdata-interp', '<![CDATA[ c ${%s} d ]]>' % E),
         ('data-attribute', '<p data-tal-content="%s">x</p>' % E),
+        ('pi-interp', '<p><?php echo ${%s} ?></p>' % E),
+        ('pi-interp-second', '<p>\n <?xml-stylesheet href="${%s}" type="${%s}"?></p>' % (good().replace('"', "'"), E)),
     ]
     kind, body = rng.choice(sites)
     tail = rng.choice(['', '\n', '<p>after</p>'])
@@ -566,7 +572,7 @@ def smoke_gen(rng, depth):
     kids = ''
     for _ in range(rng.randint(0, 3)):
         kids += smoke_gen(rng, depth + 1) if depth < 3 and rng.random() < .55 else rng.choice(
-            ['txt ', '${t} ', '\n  ', '${c} x', '<!-- ${t} -->', '<![CDATA[${t}]]>', '<?python q = 1 ?>', '<!--! x -->', '$${t}',
+            ['txt ', '${t} ', '\n  ', '${c} x', '<!-- ${t} -->', '<![CDATA[${t}]]>', '<?python q = 1 ?>', '<?php ${t} and ${c} ?>', '<?x-y ${t}?>', '<!--! x -->', '$${t}',
              '&amp;${structure: t}', '<br/>', '<input checked />'])
     tag = rng.choice(['div', 'p', 'tal:block', 'metal:block', 'span'])
     return '<%s %s>%s</%s>' % (tag, ' '.join(attrs), kids, tag)
